@@ -12,8 +12,11 @@
 (* Binding pattern P3: Generate writes the domain (Cases), the harness runs *)
 (* the real backends on numpy arrays and on the same data as DataArrays,    *)
 (* Judge evaluates Post on every (case, result); JudgeMarks decides in the  *)
-(* model which functions are batchable and compares with the marker set.    *)
-(* The module is also the arithmetic library of Fluent.tla (C13).           *)
+(* model which variadic functions are batchable (BatchableInModel) and      *)
+(* compares with the set of functions the library marks.  TLC evaluates     *)
+(* every parameterless constant definition when it starts, so the three     *)
+(* passes are guarded by IOEnv.PASS and the expensive definitions take a    *)
+(* parameter.  The module is also the arithmetic library of Fluent.tla.     *)
 (***************************************************************************)
 EXTENDS Integers, Sequences, FiniteSets, TLC, Json, IOUtils, SequencesExt
 
@@ -30,19 +33,25 @@ Q(n, d) == LET s == IF d < 0 THEN -1 ELSE 1
                g == GCD(Abs(n), Abs(d))
            IN <<(s * n) \div g, (s * d) \div g>>
 QI(x) == <<x, 1>>
-RAdd(a, b) == Q(a[1] * b[2] + b[1] * a[2], a[2] * b[2])
-RSub(a, b) == Q(a[1] * b[2] - b[1] * a[2], a[2] * b[2])
-RMul(a, b) == Q(a[1] * b[1], a[2] * b[2])
-RDiv(a, b) == Q(a[1] * b[2], a[2] * b[1])            \* b # 0 (domains exclude zero divisors)
+\* TLC integers are 32 bit and an overflow aborts the run: every operation first checks that its operands are
+\* within Lim (2 * Lim^2 < 2^31); beyond it the result is Undef = "outside the model", and no claim is made.
+Undef == <<0, 0>>
+Lim == 30000
+Fits(a, b) == /\ a # Undef /\ b # Undef
+              /\ Abs(a[1]) <= Lim /\ a[2] <= Lim /\ Abs(b[1]) <= Lim /\ b[2] <= Lim
+RAdd(a, b) == IF Fits(a, b) THEN Q(a[1] * b[2] + b[1] * a[2], a[2] * b[2]) ELSE Undef
+RSub(a, b) == IF Fits(a, b) THEN Q(a[1] * b[2] - b[1] * a[2], a[2] * b[2]) ELSE Undef
+RMul(a, b) == IF Fits(a, b) THEN Q(a[1] * b[1], a[2] * b[2]) ELSE Undef
+RDiv(a, b) == IF Fits(a, b) /\ b[1] # 0 THEN Q(a[1] * b[2], a[2] * b[1]) ELSE Undef
 RLe(a, b)  == a[1] * b[2] <= b[1] * a[2]
-RMin(a, b) == IF RLe(a, b) THEN a ELSE b
-RMax(a, b) == IF RLe(a, b) THEN b ELSE a
+RMin(a, b) == IF ~Fits(a, b) THEN Undef ELSE IF RLe(a, b) THEN a ELSE b
+RMax(a, b) == IF ~Fits(a, b) THEN Undef ELSE IF RLe(a, b) THEN b ELSE a
 RECURSIVE RPowN(_, _)
 RPowN(a, e) == IF e = 0 THEN QI(1) ELSE RMul(a, RPowN(a, e - 1))
-\* integer exponent (den 1); 0^0 = 1 as NumPy; negative exponent needs a # 0
-RPow(a, b) == IF b[1] >= 0 THEN RPowN(a, b[1]) ELSE RDiv(QI(1), RPowN(a, -b[1]))
+\* integer exponent (den 1); 0^0 = 1 as NumPy; a negative exponent needs a # 0
+RPow(a, b) == IF ~Fits(a, b) \/ b[2] # 1 \/ Abs(b[1]) > 8 THEN Undef
+              ELSE IF b[1] >= 0 THEN RPowN(a, b[1]) ELSE RDiv(QI(1), RPowN(a, 0 - b[1]))
 \* exact square root of a rational, Undef when it is not a rational
-Undef == <<0, 0>>
 SqrtQ(q) == LET rn == {r \in 0..Abs(q[1]) : r * r = q[1]}
                 rd == {r \in 1..q[2] : r * r = q[2]}
             IN IF q = Undef \/ rn = {} \/ rd = {} THEN Undef ELSE <<CHOOSE r \in rn : TRUE, CHOOSE r \in rd : TRUE>>
@@ -64,7 +73,7 @@ VarQ(s)  == LET m == MeanQ(s) IN RSub(MeanQ([i \in DOMAIN s |-> RMul(s[i], s[i])
 ReduceSeq(f, s) == CASE f \in {"sum", "prod", "min", "max"} -> FoldOp(f, s)
                      [] f = "mean" -> MeanQ(s)
                      [] f \in {"var", "std"} -> VarQ(s)
-                     [] f = "std_exact" -> IF \E i \in DOMAIN s : s[i] = Undef THEN Undef ELSE SqrtQ(VarQ(s))
+                     [] f = "std_exact" -> SqrtQ(VarQ(s))
 
 \* ------------------------------------------------------------------ arrays
 RECURSIVE ProdSeq(_)
@@ -222,6 +231,7 @@ PostOne(c, res, be, marked) ==
   LET n(what) == {be \o ":" \o c.op \o ":" \o c.k \o ":" \o what}
       want == Spec(c)
   IN IF c.k = "batched" /\ c.op \notin marked THEN {}          \* nothing is promised for unmarked functions
+     ELSE IF HasUndef(want) THEN n("outside_model_range")      \* cannot happen on this domain; never skip silently
      ELSE IF "error" \in DOMAIN res THEN n("raised")
      ELSE LET got == ImplArr(res) IN
           IF got.shape # want.shape THEN n("shape_differs")
